@@ -41,6 +41,12 @@ func init() {
 // enumProcess enumerates all process-crash images of a history and judges each with judge(ai, label, image).
 // It returns the number of images judged.
 func enumProcess(c *core.Ctx, h *core.History, fromBoundary int, judge func(ai int, label string, im crashfs.Image, opDesc string) bool) {
+	enumProcessSel(c, h, fromBoundary, nil, judge)
+}
+
+// enumProcessSel is enumProcess with a selector: sel(ai, n) returns 0 to skip boundary n, 1 to judge the
+// boundary image only, 2 to judge the boundary image and all tears of FS call n.
+func enumProcessSel(c *core.Ctx, h *core.History, fromBoundary int, sel func(ai, n int) int, judge func(ai int, label string, im crashfs.Image, opDesc string) bool) {
 	ops := h.FS.Log
 	r := crashfs.NewProcReplayer(h.Base, ops)
 	seen := map[uint64]bool{}
@@ -49,6 +55,13 @@ func enumProcess(c *core.Ctx, h *core.History, fromBoundary int, judge func(ai i
 		r.Advance(n)
 		ai := h.IntervalAt(n)
 		iv := h.Iv[ai]
+		mode := 2
+		if sel != nil {
+			mode = sel(ai, n)
+		}
+		if mode == 0 {
+			continue
+		}
 		im := r.Image(0)
 		fp := core.ImageHash(im)
 		key := fp ^ uint64(ai)*0x9e3779b97f4a7c15
@@ -72,7 +85,7 @@ func enumProcess(c *core.Ctx, h *core.History, fromBoundary int, judge func(ai i
 				return
 			}
 		}
-		if n < len(ops) {
+		if n < len(ops) && mode == 2 {
 			for _, t := range crashfs.TearPoints(ops[n]) {
 				tim := r.Image(t)
 				tfp := core.ImageHash(tim)
